@@ -1168,3 +1168,76 @@ func bmpPeerASNFromThePerPeerHeader(c *core.Ctx, rule string) {
 	})
 	c.Check(n >= 1, rule, f.Name()+" sets the peer's AS", f.Decl.Pos(), "no store to peer.peerASN found")
 }
+
+// neighborEntryCreatedOnlyWhenAbsent: every neighbor object has an adjacency checker goroutine that, when it ends,
+// removes the map entry BY MAC ADDRESS.  Replacing the entry of a MAC that is still in the map (neighbor is back after a
+// flap, neighbor restarted) leaves the old object's checker running; when it ends it deletes the NEW entry and the healthy
+// adjacency disappears although hellos keep arriving.  Rule: a store into neighborManager.neighbors is control-dependent
+// on the comma-ok lookup of that map having found nothing.
+func neighborEntryCreatedOnlyWhenAbsent(c *core.Ctx, rule string) {
+	const isisSrv = "protocols/isis/server"
+	nbrs := c.P.Field(isisSrv, "neighborManager", "neighbors")
+	if nbrs == nil {
+		c.Check(false, rule, "neighborManager.neighbors", 0, "field not found")
+		return
+	}
+	n := 0
+	for _, f := range c.P.MethodsOf(isisSrv, "neighborManager") {
+		if f.Decl.Body == nil {
+			continue
+		}
+		ast.Inspect(f.Decl.Body, func(nd ast.Node) bool {
+			as, ok := nd.(*ast.AssignStmt)
+			if !ok {
+				return true
+			}
+			for _, l := range as.Lhs {
+				ix, isIx := core.Unparen(l).(*ast.IndexExpr)
+				if !isIx || core.FieldOf(f.Pkg, ix.X) != nbrs {
+					continue
+				}
+				n++
+				c.Analysed(f)
+				absent := false
+				for _, ft := range core.CtlFactsAt(f, as) {
+					if ft.Expr == nil || ft.Truth {
+						continue
+					}
+					id, isId := core.Unparen(ft.Expr).(*ast.Ident)
+					if !isId {
+						continue
+					}
+					// `_, found := nm.neighbors[k]`, and nothing else ever assigns `found`
+					writes := 0
+					ast.Inspect(f.Decl.Body, func(m ast.Node) bool {
+						if d, isAs := m.(*ast.AssignStmt); isAs {
+							for _, dl := range d.Lhs {
+								if core.ObjOf(f.Pkg, dl) == core.ObjOf(f.Pkg, id) {
+									writes++
+								}
+							}
+						}
+						return true
+					})
+					if writes != 1 {
+						continue
+					}
+					ast.Inspect(f.Decl.Body, func(m ast.Node) bool {
+						d, isAs := m.(*ast.AssignStmt)
+						if !isAs || len(d.Lhs) != 2 || len(d.Rhs) != 1 || core.ObjOf(f.Pkg, d.Lhs[1]) != core.ObjOf(f.Pkg, id) {
+							return true
+						}
+						if dx, isDx := core.Unparen(d.Rhs[0]).(*ast.IndexExpr); isDx && core.FieldOf(f.Pkg, dx.X) == nbrs && types.ExprString(dx.Index) == types.ExprString(ix.Index) {
+							absent = true
+						}
+						return true
+					})
+				}
+				c.Check(absent, rule, fmt.Sprintf("%s stores a neighbor only when the map has none for that address", f.Name()), as.Pos(),
+					"a neighbor entry can be stored over an existing one: the replaced object's adjacency checker keeps running and later deletes the map entry by MAC address — the new, healthy adjacency is dropped while its hellos keep arriving")
+			}
+			return true
+		})
+	}
+	c.Check(n >= 1, rule, "stores into neighborManager.neighbors", 0, "none found")
+}
